@@ -110,6 +110,23 @@ def run(ctx):
                     cases.append({'kind': 'pair', 'a': outs[0]['obs'], 'b': b['obs'], '_call': b['_call'], '_texts': b['_texts'],
                                   '_creds': b['_creds'], '_target': b['_target'], '_dflt': b['_dflt'], '_registered': b['_registered']})
                     n_pairs += 1
+        # custom checks that answer with every kind of falsy / truthy value (None, 0, '', [], {}, 0.0 / 'yes', 1,
+        # [0], ...): falsy means denied, whatever the value - alone, behind an alias, under and / or
+        for pidn in range(7):
+            for arity in (4, 3):
+                leaf = ev.probe(pidn, arity, 'f1')
+                for shape in ('self', 'alias', 'and', 'or'):
+                    rules = {'self': [('p:x', leaf)], 'alias': [('p:x', ev.rule('p:y')), ('p:y', leaf)],
+                             'and': [('p:x', ev.And(ev.T, leaf))], 'or': [('p:x', ev.Or(ev.F, leaf))]}[shape]
+                    if q and (pidn + arity + len(shape)) % 2:
+                        continue
+                    for flags in ([], ['f1']):
+                        for mode in ({'doraise': 0}, {'doraise': 1}, {'doraise': 1, 'custom': 1, 'xargs': [1], 'xkw': {}}):
+                            for by in ('name', 'check'):
+                                call = dict({'by': by, 'name': 'p:x', 'credskind': 'map'}, **mode)
+                                if by == 'check':
+                                    call['tree'] = dict(rules)['p:x']
+                                cases.append(ec.enforce_case(rules, call, {}, {'roles': [], 'f': flags}, dflt=('opt', None), checklog=1, want='c07'))
         # one RequestContext object used for several calls, its attributes re-assigned in between: every
         # call is decided on what the context holds at the time of the call
         from oslo_context import context as _context
